@@ -86,6 +86,17 @@ Dev(d, m, v, marks) ==
          /\ m.topic \in {"syncmsg", "contrib"} /\ E.variant \in {"period-boundary", "period-boundary-old-committee"}
          /\ \/ (E.variant = "period-boundary" /\ FailNames(m) = {} /\ v = "REJECT" /\ marks = {})
             \/ (E.variant = "period-boundary-old-committee" /\ v = "ACCEPT" /\ marks = KeysOf(m))
+    [] d = "gossip-contrib-single-participant" ->
+         \* SyncCommitteeSubnetBits.OnesCount counts a bitVECTOR with the bitLIST routine (which drops the
+         \* highest set bit as delimiter): a contribution with exactly one participant "has none".
+         /\ m.topic = "contrib" /\ E.variant \in {"single-participant", "period-boundary+single-participant"}
+         /\ FailNames(m) = {} /\ v = "REJECT" /\ marks = {}
+    [] d = "gossip-exit-deneb-domain" ->
+         \* ValidateVoluntaryExit always applies phase0's rule get_domain(state, VOLUNTARY_EXIT, epoch); from
+         \* deneb on (EIP-7044) exits are signed under the capella fork version.
+         /\ m.topic = "exit"
+         /\ \/ (E.variant = "deneb-exit-capella-domain" /\ FailNames(m) = {} /\ v = "REJECT" /\ marks = {})
+            \/ (E.variant = "deneb-exit-state-domain" /\ FailNames(m) = {"signature"} /\ v = "ACCEPT" /\ marks = KeysOf(m))
     [] d = "gossip-aslash-partial-mark" ->
          \* ValidateAttesterSlashing marks only the still-slashable part of the intersection.
          /\ m.topic = "aslash" /\ v = "ACCEPT" /\ FailNames(m) = {} /\ marks \subseteq KeysOf(m) /\ marks # {} /\ marks # KeysOf(m)
